@@ -68,7 +68,7 @@ def linked_doc(rng, canary_dir):
     n = rng.randint(1, 3)
     runs, rels, parts, links = [], [], [], []
     for k in range(n):
-        kind = rng.choice(["linked-rel", "linked-rel", "linked-abs-file", "linked-missing", "embedded", "linked-url"])
+        kind = rng.choice(["linked-rel", "linked-rel", "linked-abs-file", "linked-missing", "embedded", "linked-url", "linked-abs-missing"])
         rid = "rId%d" % k
         if kind == "embedded":
             parts.append({"name": "word/media/i%d.png" % k, "hex": bytes([k, 1, 2]).hex()})
@@ -81,6 +81,9 @@ def linked_doc(rng, canary_dir):
                 target = "file://" + os.path.join(canary_dir, "pics", "img%d.png" % k)
             elif kind == "linked-url":
                 target = "http://127.0.0.1:9/img%d.png" % k
+            elif kind == "linked-abs-missing":
+                # an absolute target that cannot be opened, while a file of the same base name lies next to the document
+                target = "file:///no/such/dir%d/decoy%d.png" % (k, k)
             else:
                 target = "pics/missing%d.png" % k
             rels.append([rid, REL + "image", target])
@@ -92,6 +95,74 @@ def linked_doc(rng, canary_dir):
     parts.append({"name": "word/_rels/document.xml.rels", "xml": el("relationships:Relationships", [], [el("relationships:Relationship", [("Id", i), ("Type", t), ("Target", g)]) for i, t, g in rels])})
     parts.append({"name": "[Content_Types].xml", "xml": el("content-types:Types", [], [el("content-types:Default", [("Extension", "png"), ("ContentType", "image/png")])])})
     return parts, links
+
+
+COLD = r"""
+import io, json, sys
+sys.path.insert(0, %(harness)r); sys.path.insert(0, %(repo)r)
+events, armed = [], [False]
+WATCH = ("open", "urllib.Request", "socket.connect", "socket.getaddrinfo", "os.open", "os.listdir", "os.scandir", "subprocess.Popen")
+def hook(ev, args):
+    if armed[0] and ev in WATCH:
+        events.append([ev, repr(args[0])[:300] if args else ""])
+sys.addaudithook(hook)
+import mammoth
+docs = json.load(open(%(spec)r))
+out = []
+for d in docs:
+    del events[:]
+    armed[0] = True
+    try:
+        try:
+            mammoth.convert_to_html(io.BytesIO(bytes.fromhex(d["hex"])))
+            err = None
+        except Exception as e:
+            err = type(e).__name__
+    finally:
+        armed[0] = False
+    out.append({"events": list(events), "err": err})
+print(json.dumps({"prefixes": [sys.prefix, sys.base_prefix, sys.exec_prefix], "out": out}))
+"""
+
+
+def cold_start(out, seed, tier):
+    """the FIRST conversions of a fresh interpreter (anonymous in-memory documents, embedded images with declared and
+    undeclared extensions, no linked image): whatever the library initialises lazily on first use must not read files
+    either.  Only the interpreter loading Python modules (paths under sys.prefix, *.py / *.pyc) is discounted."""
+    import json
+    import subprocess
+    from common import VERIF, REPO
+    docs = []
+    for i in range(6 if tier == "quick" else 40):
+        g, parts, opts = C.api_case(seed * 1000003 + 900000 + i, dict(p_linked_image=0.0, p_image=0.5, style_map=0.0, p_embedded_map=0.0))
+        docs.append({"hex": D.build_docx(parts).hex(), "parts": parts})
+    spec = os.path.join(WORK, "c18_cold_%d.json" % os.getpid())
+    json.dump([{"hex": d["hex"]} for d in docs], open(spec, "w"))
+    try:
+        p = subprocess.run([sys.executable, "-c", COLD % dict(harness=os.path.join(VERIF, "harness"), repo=REPO, spec=spec)],
+                           capture_output=True, text=True, timeout=600)
+    finally:
+        os.unlink(spec)
+    if p.returncode != 0:
+        raise common.Infra("cold-start audit child failed: " + p.stderr[-400:])
+    res = json.loads(p.stdout)
+    prefixes = tuple(res["prefixes"]) + (REPO,)
+    for d, o in zip(docs, res["out"]):
+        out.count(key="cold-%d-%s" % (seed, d["hex"][:40]), nontrivial=True)
+        bad = []
+        for ev, a in o["events"]:
+            path = a.strip("'\"")
+            if ev == "open" and (path.startswith(prefixes) and (path.endswith((".py", ".pyc")) or "__pycache__" in path)):
+                continue
+            if ev == "open" and path.endswith((".py", ".pyc")):
+                continue
+            if ev in ("os.listdir", "os.scandir") and path.startswith(prefixes):
+                continue        # the import system scanning a package directory of the interpreter / the library
+            bad.append((ev, a))
+        if bad:
+            out.violation("first conversion in a fresh interpreter (in-memory document without linked images) touched the outside world: %s" % bad[:4],
+                          {"kind": "io-cold", "parts": d["parts"], "options": {}}, expected=[], actual=bad[:10])
+            break
 
 
 def run(out, tier, seed, model_ok):
@@ -106,6 +177,8 @@ def run(out, tier, seed, model_ok):
     for k in range(3):
         with open(os.path.join(base, "pics", "img%d.png" % k), "wb") as f:
             f.write(bytes([9, k, 9]))
+        with open(os.path.join(base, "decoy%d.png" % k), "wb") as f:       # never referenced by any document
+            f.write(bytes([7, k, 7]))
     # warm every lazy import the library does on first use
     g, parts, opts = C.api_case(1, {})
     D.run_real(D.build_docx(parts), {}, want_doc=True)
@@ -155,6 +228,7 @@ def run(out, tier, seed, model_ok):
         events = list(EVENTS)
         opens = conv is None or conv.get("open")
         expected = []
+        allowed_missing = set()      # paths whose (failing) open is the legitimate attempt
         if opens:
             for kind, target in links:
                 if kind in ("linked-rel", "linked-missing"):
@@ -163,6 +237,9 @@ def run(out, tier, seed, model_ok):
                 elif kind == "linked-abs-file":
                     expected.append(("urllib.Request", target))
                     expected.append(("open", target[len("file://"):]))
+                elif kind == "linked-abs-missing":
+                    expected.append(("urllib.Request", target))
+                    allowed_missing.add(target[len("file://"):])
                 else:
                     expected.append(("urllib.Request", target))
         out.count(key="io-%d-%d" % (seed, i), nontrivial=bool(links))
@@ -171,7 +248,7 @@ def run(out, tier, seed, model_ok):
             out.violation("conversion raised %s instead of reporting a warning" % type(err).__name__, case, actual=repr(err)[:300])
             continue
         probs = []
-        allowed_paths = {p for _k, p in expected}
+        allowed_paths = {p for _k, p in expected} | allowed_missing
         for ev, args in events:
             txt = " ".join(args)
             if "canary" in txt or "evil" in txt:
@@ -191,6 +268,8 @@ def run(out, tier, seed, model_ok):
                 continue
             if kind in ("linked-rel", "linked-missing") and not named and not any("fileobj has no name" in m and target in m for m in msgs):
                 probs.append("a relative linked image with an anonymous input did not yield the 'no name' warning")
+            if kind == "linked-abs-missing" and not any("could not open external image" in m and target in m for m in msgs):
+                probs.append("an absolute linked image that cannot be opened did not yield a warning")
             if kind in ("linked-missing", "linked-url") and named and not any("could not open external image" in m and target in m for m in msgs):
                 probs.append("an unopenable linked image did not yield a warning")
         if probs:
@@ -217,6 +296,7 @@ def run(out, tier, seed, model_ok):
             got = [(e, a[0]) for e, a in events if not (e == "open" and any(w[0] == "urllib.Request" and w[1] == repr("file://" + a[0].strip("'")) for w in want))]
             if got != want or m["value"] != value or m["messages"] != msgs:
                 out.violation("external reads / result differ from the ioTrace specification", case, expected={"io": want, "messages": m["messages"]}, actual={"io": got, "messages": msgs})
+    cold_start(out, seed, tier)
     import shutil
     shutil.rmtree(base, ignore_errors=True)
     out.rule = ("documents with embedded and externally linked images (relative, absolute file URI, unreachable URL, missing file), XML parts carrying DOCTYPEs with an external "
